@@ -126,3 +126,103 @@ theorem C10_query_agrees_path (key : Str) (value : Val) (m : Val) (path : Str)
   unfold oldValues pathKeys
   rw [dropTrailingEmpty_id _ hseg]
   exact C10_query_agrees key value m _ hlast hkey hnl
+
+/-! ### which nodes are updated (path does not end in the new key) -/
+
+/-- when the last path key is a plain key different from `k`, the count is the number of nodes
+    the path addresses (`ValuesForPath(path)` on the receiver, lists standing for their
+    members) that are maps holding `k` and satisfying the sub-key conditions -/
+theorem C10_count_addressed (key : Str) (value : Val) (subs : SubKeys) (m : Val) (ks : List Str)
+    (k0 : Str) (hlast : ks.getLast? = some k0) (hk0 : k0 ≠ ['*']) (hne : key ≠ k0) :
+    (updPath key value subs m ks).2 = ((walk none m ks).filter (holds key subs)).length :=
+  count_addressed key value subs k0 hk0 hne ks m hlast
+
+/-! ### examples: the hypotheses are satisfiable; what the model and its ghost compute -/
+
+/-- `{"a": {"b": 1, "c": 2}, "l": [{"b": 1, "c": 3}, {"b": 1, "c": 4}, 5]}` -/
+def exM : Val :=
+  .map [(['a'], .map [(['b'], .num ['1']), (['c'], .num ['2'])]),
+        (['l'], .list [.map [(['b'], .num ['1']), (['c'], .num ['3'])],
+                       .map [(['b'], .num ['1']), (['c'], .num ['4'])], .num ['5']])]
+
+example : exM.wf = true := by decide
+
+/-- path `a.b`, new value `b:x`: one replacement, at `a.b` -/
+example : updPath ['b'] (.str ['x']) [] exM [['a'], ['b']]
+    = (.map [(['a'], .map [(['b'], .str ['x']), (['c'], .num ['2'])]),
+             (['l'], .list [.map [(['b'], .num ['1']), (['c'], .num ['3'])],
+                            .map [(['b'], .num ['1']), (['c'], .num ['4'])], .num ['5']])], 1) := by
+  simp [exM, updPath, updValue, updMap, updAt, lookup, insert, hasSubKeys]
+
+example : updPathLoci ['b'] [] exM [['a'], ['b']] = [[.key ['a'], .key ['b']]] := by
+  simp [exM, updPathLoci, updValueLoci, updMapLoci, updEndLoci, lookup, hasSubKeys]
+
+/-- path `*.b`: the wildcard reaches `a` and the map members of the list `l` -/
+example : updPath ['b'] (.str ['x']) [] exM [['*'], ['b']]
+    = (.map [(['a'], .map [(['b'], .str ['x']), (['c'], .num ['2'])]),
+             (['l'], .list [.map [(['b'], .str ['x']), (['c'], .num ['3'])],
+                            .map [(['b'], .str ['x']), (['c'], .num ['4'])], .num ['5']])], 3) := by
+  simp [exM, updPath, updValue, updMap, updAt, lookup, insert, hasSubKeys, mapEntriesCount,
+    mapCount]
+
+example : updPathLoci ['b'] [] exM [['*'], ['b']]
+    = [[.key ['a'], .key ['b']], [.key ['l'], .idx 0, .key ['b']],
+       [.key ['l'], .idx 1, .key ['b']]] := by
+  simp [exM, updPathLoci, updValueLoci, updMapLoci, updEndLoci, lookup, hasSubKeys, lociEntries,
+    lociList]
+
+/-- path `l` with the sub-key `c:4` (a number): only the member satisfying it gets `b := x` -/
+example : updPath ['b'] (.str ['x']) [(['c'], .num ['4'])] exM [['l']]
+    = (.map [(['a'], .map [(['b'], .num ['1']), (['c'], .num ['2'])]),
+             (['l'], .list [.map [(['b'], .num ['1']), (['c'], .num ['3'])],
+                            .map [(['b'], .str ['x']), (['c'], .num ['4'])], .num ['5']])], 1) := by
+  simp [exM, updPath, updValue, updMap, updAt, lookup, insert, hasSubKeys, subCond, hasPrefix,
+    setInMembers, mapCount, List.isPrefixOf]
+
+example : updPathLoci ['b'] [(['c'], .num ['4'])] exM [['l']]
+    = [[.key ['l'], .idx 1, .key ['b']]] := by
+  simp [exM, updPathLoci, updValueLoci, updMapLoci, updEndLoci, setInLoci, lookup, hasSubKeys,
+    subCond, hasPrefix, lociList, List.isPrefixOf]
+
+/-- `C10_query_agrees` instantiated: after the `*.b` update the query yields three copies -/
+example : walk none (updPath ['b'] (.str ['x']) [] exM [['*'], ['b']]).1 [['*'], ['b']]
+    = List.replicate (updPath ['b'] (.str ['x']) [] exM [['*'], ['b']]).2 (.str ['x']) :=
+  C10_query_agrees ['b'] (.str ['x']) exM [['*'], ['b']] (by decide) (by decide) (by decide)
+
+/-- `hnl` is needed: a list as the new value is expanded by the query (here: to nothing),
+    while the count is 1 -/
+example : updPath ['a'] (.list []) [] (.map [(['a'], .num ['1'])]) [['a']]
+    = (.map [(['a'], .list [])], 1) := by
+  simp [updPath, updValue, updMap, updAt, lookup, insert, hasSubKeys]
+example : walk none (.map [(['a'], .list [])]) [['a']] = [] := by
+  simp [walk, lookup, loadLeaf]
+
+/-- `hkey` is needed: with the wildcard as the new key nothing is replaced, but the query `*`
+    yields every value -/
+example : updPath ['*'] (.str ['x']) [] (.map [(['a'], .num ['1'])]) [['*']]
+    = (.map [(['a'], .num ['1'])], 0) := by
+  simp [updPath, updValue, updMap, updAt, lookup, hasSubKeys, keys]
+example : walk none (.map [(['a'], .num ['1'])]) [['*']] = [.num ['1']] := by
+  simp [walk, loadLeaf]
+
+/-- the frame theorem cannot cover locations above a locus: the root is not below `[a]` -/
+example : getLoc (updPath ['a'] (.str ['x']) [] (.map [(['a'], .num ['1'])]) [['a']]).1 []
+    ≠ getLoc (.map [(['a'], .num ['1'])]) [] := by
+  simp [updPath, updValue, updMap, updAt, lookup, insert, hasSubKeys, getLoc]
+
+/-- `hwf` is needed for the loci theorems: on an ill-formed "map" with a repeated key the
+    wildcard visits both entries (count 2, both changed) while locations can only name the
+    first — the ghost loci repeat, and writing at them changes one entry only -/
+def exDup : Val := .map [(['a'], .map [(['b'], .num ['1'])]), (['a'], .map [(['b'], .num ['2'])])]
+example : exDup.wf = false := by decide
+example : updPath ['b'] (.str ['x']) [] exDup [['*'], ['b']]
+    = (.map [(['a'], .map [(['b'], .str ['x'])]), (['a'], .map [(['b'], .str ['x'])])], 2) := by
+  simp [exDup, updPath, updValue, updMap, updAt, lookup, insert, hasSubKeys, mapEntriesCount]
+example : updPathLoci ['b'] [] exDup [['*'], ['b']]
+    = [[.key ['a'], .key ['b']], [.key ['a'], .key ['b']]] := by
+  simp [exDup, updPathLoci, updValueLoci, updMapLoci, updEndLoci, lookup, hasSubKeys, lociEntries]
+example : writeAll (.str ['x']) exDup [[.key ['a'], .key ['b']], [.key ['a'], .key ['b']]]
+    = .map [(['a'], .map [(['b'], .str ['x'])]), (['a'], .map [(['b'], .num ['2'])])] := by
+  simp [exDup, writeAll, writeLoc, lookup, insert]
+
+end Mxj.C10
